@@ -392,3 +392,406 @@ Proof.
   destruct (loop (S fuel') f' false p st (tok :: rest)) as [st1 e]. cbn [snd] in He. subst e.
   destruct k; reflexivity.
 Qed.
+
+(* ================= a concrete format for the non-vacuity examples =================
+   command names: server (alias srv), add;  arguments: src (required), count (optional, INTEGER);
+   options: --verbose/-v, --quiet/-q (flags), --num/-n (value required, INTEGER), --opt/-o (value optional) *)
+Definition S_ (x : string) : str := List.map N_of_ascii (list_ascii_of_string x).
+Definition T (l : list string) : list str := List.map S_ l.
+Definition mkopt (l : string) (s : option string) (fl : Z) (d : pyval) : opt :=
+  {| o_long := S_ l; o_short := option_map S_ s;
+     o_flags := opt_defaults fl (match s with Some _ => true | None => false end); o_default := d |}.
+Definition mkarg (n : string) (fl : Z) (d : pyval) : arg :=
+  {| a_name := S_ n; a_flags := arg_defaults fl; a_default := d |}.
+Definition ex_opts : list element :=
+  [ EOpt (mkopt "verbose" (Some "v") 4 VNone); EOpt (mkopt "quiet" (Some "q") 4 VNone);
+    EOpt (mkopt "num" (Some "n") 520 VNone); EOpt (mkopt "opt" (Some "o") 16 (VStr (S_ "d"))) ]%string.
+Definition ex_args : list element := [ EArg (mkarg "src" 1 VNone); EArg (mkarg "count" 66 VNone) ]%string.
+Definition ex_cnames : list element :=
+  [ ECName {| cn_name := S_ "server"; cn_aliases := [S_ "srv"] |}; ECName {| cn_name := S_ "add"; cn_aliases := [] |} ]%string.
+Definition fmt_of (es : list element) : fmt :=
+  match format_of_elements es None with Ok f => f | Err _ => empty_builder None end.
+Definition aug_of (f : fmt) := match aug_format f with Ok x => x | Err _ => (f, [], []) end.
+(* ex_f: with command names; ex_g: the same without command names *)
+Definition ex_f : fmt := fmt_of (ex_cnames ++ ex_args ++ ex_opts).
+Definition ex_g : fmt := fmt_of (ex_args ++ ex_opts).
+Definition ex_f' := fst (fst (aug_of ex_f)).  Definition ex_far := snd (fst (aug_of ex_f)).  Definition ex_fcn := snd (aug_of ex_f).
+Definition ex_g' := fst (fst (aug_of ex_g)).  Definition ex_gar := snd (fst (aug_of ex_g)).  Definition ex_gcn := snd (aug_of ex_g).
+Lemma ex_f_aug : aug_format ex_f = Ok (ex_f', ex_far, ex_fcn).  Proof. vm_compute. reflexivity. Qed.
+Lemma ex_g_aug : aug_format ex_g = Ok (ex_g', ex_gar, ex_gcn).  Proof. vm_compute. reflexivity. Qed.
+(* the scratch state the strict loop ends in *)
+Definition scan_st (f : fmt) (pre : list str) : pstate := fst (loop (S (length pre)) f false true ps_empty pre).
+(* ================= 2. clause 1: unknown option -> NoSuchOption ================= *)
+(* the name part of the body of a long option token: everything before the first "=" *)
+Definition opt_name (body : str) : str := match split_eq body [] with Some (n, _) => n | None => body end.
+Lemma opt_name_plain n : no_eq n = true -> opt_name n = n.
+Proof. intros H. unfold opt_name. rewrite (split_eq_none n [] H). reflexivity. Qed.
+Lemma opt_name_eq n v : no_eq n = true -> opt_name (n ++ EQ :: v) = n.
+Proof. intros H. unfold opt_name. rewrite (split_eq_found n v [] H). reflexivity. Qed.
+
+Lemma long_tok_dispatch f len st body rest : body <> [] ->
+  step f len true st (long_tok body) rest =
+  match parse_long_option f st (long_tok body) rest with Ok (st', rest') => Ok (true, st', rest') | Err k => Err k end.
+Proof.
+  intros Hb. unfold step, long_tok. cbn [andb nonempty negb].
+  assert (is_dd (DASH :: DASH :: body) = false) as ->.
+  { unfold is_dd. cbn [str_eqb]. rewrite N.eqb_refl. destruct body; [contradiction|reflexivity]. }
+  assert (starts_dd (DASH :: DASH :: body) = true) as -> by (unfold starts_dd; rewrite N.eqb_refl; reflexivity).
+  reflexivity.
+Qed.
+
+Lemma step_unknown_long f len st body rest :
+  body <> [] -> has_option f (opt_name body) true = false ->
+  step f len true st (long_tok body) rest = Err NoSuchOption.
+Proof.
+  intros Hb Hn. rewrite long_tok_dispatch by exact Hb.
+  unfold parse_long_option, long_tok, opt_name in *. cbn [skipn].
+  destruct (split_eq body []) as [[n v]|].
+  - rewrite add_long_eq, Hn. reflexivity.
+  - unfold accepts. rewrite Hn. cbn [andb]. rewrite add_long_eq, Hn. reflexivity.
+Qed.
+
+Theorem unknown_long_option_at f f' ar cns toks st body rest :
+  aug_format f = Ok (f', ar, cns) ->
+  reach f' false true ps_empty toks true st (long_tok body :: rest) ->
+  body <> [] -> has_option f' (opt_name body) true = false ->
+  parse f false toks = Err NoSuchOption.
+Proof. intros Ha Hr Hb Hn. eapply strict_error_at; eauto. apply step_unknown_long; assumption. Qed.
+
+Lemma dashy_long body : dashy (long_tok body) = true.
+Proof. reflexivity. Qed.
+Lemma dashy_short body : dashy (short_tok body) = true.
+Proof. reflexivity. Qed.
+
+(* "--name" / "--name=value" behind any prefix that the loop processes without error (no "--" in it) *)
+Theorem unknown_long_option f f' ar cns pre st name rest :
+  aug_format f = Ok (f', ar, cns) -> scans f' pre st -> existsb is_dd pre = false ->
+  name <> [] -> no_eq name = true -> has_option f' name true = false ->
+  parse f false (pre ++ long_tok name :: rest) = Err NoSuchOption.
+Proof.
+  intros Ha Hs Hdd Hne Hq Hn. apply (unknown_long_option_at f f' ar cns _ st name rest Ha).
+  - apply scans_reach; auto.
+  - exact Hne.
+  - rewrite opt_name_plain; assumption.
+Qed.
+Theorem unknown_long_option_eq f f' ar cns pre st name value rest :
+  aug_format f = Ok (f', ar, cns) -> scans f' pre st -> existsb is_dd pre = false ->
+  no_eq name = true -> has_option f' name true = false ->
+  parse f false (pre ++ long_tok (name ++ EQ :: value) :: rest) = Err NoSuchOption.
+Proof.
+  intros Ha Hs Hdd Hq Hn. apply (unknown_long_option_at f f' ar cns _ st (name ++ EQ :: value) rest Ha).
+  - apply scans_reach; auto.
+  - destruct name; discriminate.
+  - rewrite opt_name_eq; assumption.
+Qed.
+
+(* short options: "-x...", also behind a group of known flags "-abx..." *)
+Definition flag_ok (f : fmt) (x : N) : bool :=
+  has_option f [x] true &&
+  match get_option f [x] true with
+  | Ok o => negb (o_accepts o) && has_option f (o_long o) true &&
+            match get_option f (o_long o) true with
+            | Ok o' => negb (o_accepts o') && negb (o_required o') && negb (o_multi o')
+            | Err _ => false end
+  | Err _ => false end.
+
+Lemma flag_ok_inv f x : flag_ok f x = true ->
+  exists o o', has_option f [x] true = true /\ get_option f [x] true = Ok o /\ o_accepts o = false /\
+    has_option f (o_long o) true = true /\ get_option f (o_long o) true = Ok o' /\
+    o_accepts o' = false /\ o_required o' = false /\ o_multi o' = false.
+Proof.
+  unfold flag_ok. intros H. apply andb_prop in H as [H1 H].
+  destruct (get_option f [x] true) as [o|] eqn:E1; [|discriminate].
+  apply andb_prop in H as [H H4]. apply andb_prop in H as [H2 H3].
+  destruct (get_option f (o_long o) true) as [o'|] eqn:E2; [|discriminate].
+  apply andb_prop in H4 as [H4 H6]. apply andb_prop in H4 as [H4 H5].
+  apply negb_true_iff in H2, H4, H5, H6.
+  exists o, o'. repeat split; assumption.
+Qed.
+
+Lemma short_set_unknown f c more : has_option f [c] true = false ->
+  forall flags st t, forallb (flag_ok f) flags = true ->
+  fst (short_set f st (flags ++ c :: more) t) = Err NoSuchOption.
+Proof.
+  intros Hn. induction flags as [|x fl IH]; intros st t Hf; cbn [app short_set].
+  - rewrite Hn. reflexivity.
+  - cbn [forallb] in Hf. apply andb_prop in Hf as [Hx Hfl].
+    destruct (flag_ok_inv _ _ Hx) as (o & o' & H1 & H2 & H3 & H4 & H5 & H6 & H7 & H8).
+    rewrite H1, H2, H3. cbn [negb]. rewrite add_long_eq, H4, H5. cbn [negb bind].
+    rewrite H6. cbn [look fst snd]. unfold store. rewrite H7, H8. apply IH. exact Hfl.
+Qed.
+
+Lemma short_tok_dispatch f len st body rest : body <> [] -> starts_dash body = false ->
+  step f len true st (short_tok body) rest =
+  match fst (parse_short_option f st (short_tok body) rest) with Ok (st', rest') => Ok (true, st', rest') | Err k => Err k end.
+Proof.
+  intros Hb Hd. unfold step, short_tok. cbn [andb nonempty negb].
+  destruct body as [|x body]; [contradiction|]. cbn [starts_dash] in Hd.
+  assert (is_dd (DASH :: x :: body) = false) as ->.
+  { unfold is_dd. cbn [str_eqb]. rewrite Hd, andb_false_r. reflexivity. }
+  assert (starts_dd (DASH :: x :: body) = false) as -> by (unfold starts_dd; rewrite Hd, andb_false_r; reflexivity).
+  assert (starts_dash (DASH :: x :: body) = true) as -> by (unfold starts_dash; apply N.eqb_refl).
+  assert (str_eqb (DASH :: x :: body) [DASH] = false) as -> by (cbn [str_eqb]; apply andb_false_r).
+  reflexivity.
+Qed.
+
+Lemma step_unknown_short f len st flags c more rest :
+  starts_dash (flags ++ c :: more) = false -> forallb (flag_ok f) flags = true -> has_option f [c] true = false ->
+  step f len true st (short_tok (flags ++ c :: more)) rest = Err NoSuchOption.
+Proof.
+  intros Hd Hf Hn. rewrite short_tok_dispatch; [|destruct flags; discriminate|exact Hd].
+  unfold parse_short_option, short_tok. cbn [skipn].
+  destruct flags as [|x fl]; cbn [app].
+  - destruct more as [|m more].
+    + unfold accepts. rewrite Hn. cbn [andb fst]. unfold add_short_option. rewrite Hn. reflexivity.
+    + unfold accepts. rewrite Hn. cbn [andb].
+      pose proof (short_set_unknown f c (m :: more) Hn [] st rest eq_refl) as Hx. cbn [app] in Hx.
+      rewrite Hx. reflexivity.
+  - cbn [forallb] in Hf. pose proof Hf as Hf0. apply andb_prop in Hf as [Hx Hfl].
+    destruct (flag_ok_inv _ _ Hx) as (o & o' & H1 & H2 & H3 & _).
+    assert (accepts f [x] = false) as Ha by (unfold accepts; rewrite H1, H2, H3; reflexivity).
+    destruct (fl ++ c :: more) as [|y l] eqn:E; [destruct fl; discriminate|].
+    rewrite Ha. rewrite <- E.
+    change (x :: fl ++ c :: more) with ((x :: fl) ++ c :: more).
+    rewrite (short_set_unknown f c more Hn (x :: fl) st rest Hf0). reflexivity.
+Qed.
+
+Theorem unknown_short_option_at f f' ar cns toks st flags c more rest :
+  aug_format f = Ok (f', ar, cns) ->
+  reach f' false true ps_empty toks true st (short_tok (flags ++ c :: more) :: rest) ->
+  starts_dash (flags ++ c :: more) = false -> forallb (flag_ok f') flags = true ->
+  has_option f' [c] true = false ->
+  parse f false toks = Err NoSuchOption.
+Proof. intros Ha Hr Hd Hf Hn. eapply strict_error_at; eauto. apply step_unknown_short; assumption. Qed.
+
+Theorem unknown_short_option f f' ar cns pre st flags c more rest :
+  aug_format f = Ok (f', ar, cns) -> scans f' pre st -> existsb is_dd pre = false ->
+  starts_dash (flags ++ c :: more) = false -> forallb (flag_ok f') flags = true ->
+  has_option f' [c] true = false ->
+  parse f false (pre ++ short_tok (flags ++ c :: more) :: rest) = Err NoSuchOption.
+Proof.
+  intros Ha Hs Hdd Hd Hf Hn.
+  apply (unknown_short_option_at f f' ar cns _ st flags c more rest Ha); try assumption.
+  apply scans_reach; auto.
+Qed.
+
+Open Scope string_scope.
+(* non-vacuity: every hypothesis holds for these lines *)
+Example ex_unknown_long : parse ex_f false (T ["server"; "x"; "--opt"; "--nope"; "y"]) = Err NoSuchOption.
+Proof.
+  apply (unknown_long_option ex_f ex_f' ex_far ex_fcn (T ["server"; "x"; "--opt"]) (scan_st ex_f' (T ["server"; "x"; "--opt"]))
+           (S_ "nope") (T ["y"]) ex_f_aug); vm_compute; try reflexivity; discriminate.
+Qed.
+Example ex_unknown_long_eq : parse ex_f false (T ["-v"; "--num"; "3"; "--nope=1"; "--also"]) = Err NoSuchOption.
+Proof.
+  apply (unknown_long_option_eq ex_f ex_f' ex_far ex_fcn (T ["-v"; "--num"; "3"]) (scan_st ex_f' (T ["-v"; "--num"; "3"]))
+           (S_ "nope") (S_ "1") (T ["--also"]) ex_f_aug); vm_compute; reflexivity.
+Qed.
+Example ex_unknown_short : parse ex_f false (T ["x"; "-vqzn"; "3"]) = Err NoSuchOption.
+Proof.
+  apply (unknown_short_option ex_f ex_f' ex_far ex_fcn (T ["x"]) (scan_st ex_f' (T ["x"]))
+           (S_ "vq") 122%N (S_ "n") (T ["3"]) ex_f_aug); vm_compute; reflexivity.
+Qed.
+Close Scope string_scope.
+(* ================= 3. clause 2: a value given to a flag -> CannotParse ================= *)
+Lemma step_flag_value f len st name value rest o :
+  no_eq name = true -> has_option f name true = true -> get_option f name true = Ok o -> o_accepts o = false ->
+  step f len true st (long_tok (name ++ EQ :: value)) rest = Err CannotParse.
+Proof.
+  intros Hq Hh Hg Ha. rewrite long_tok_dispatch by (destruct name; discriminate).
+  unfold parse_long_option, long_tok. cbn [skipn]. rewrite (split_eq_found name value [] Hq). cbn [rev app].
+  rewrite add_long_eq, Hh, Hg. cbn [negb bind]. rewrite Ha. reflexivity.
+Qed.
+
+Theorem flag_given_value_at f f' ar cns toks st name value rest o :
+  aug_format f = Ok (f', ar, cns) ->
+  reach f' false true ps_empty toks true st (long_tok (name ++ EQ :: value) :: rest) ->
+  no_eq name = true -> has_option f' name true = true -> get_option f' name true = Ok o -> o_accepts o = false ->
+  parse f false toks = Err CannotParse.
+Proof. intros Ha Hr Hq Hh Hg Hacc. eapply strict_error_at; eauto. eapply step_flag_value; eauto. Qed.
+
+Theorem flag_given_value f f' ar cns pre st name value rest o :
+  aug_format f = Ok (f', ar, cns) -> scans f' pre st -> existsb is_dd pre = false ->
+  no_eq name = true -> has_option f' name true = true -> get_option f' name true = Ok o -> o_accepts o = false ->
+  parse f false (pre ++ long_tok (name ++ EQ :: value) :: rest) = Err CannotParse.
+Proof.
+  intros Ha Hs Hdd Hq Hh Hg Hacc.
+  apply (flag_given_value_at f f' ar cns _ st name value rest o Ha); try assumption.
+  apply scans_reach; auto.
+Qed.
+
+(* ================= 4. clause 3: a required option value left out -> CannotParse ================= *)
+(* nothing follows, or what follows cannot be a value: an empty token or one that starts with "-" *)
+Definition no_value_next (rest : list str) : bool :=
+  match rest with [] => true | nxt :: _ => negb (nonempty nxt) || starts_dash nxt end.
+
+Lemma add_long_missing f st n o (v : option str) (t : list str) :
+  has_option f n true = true -> get_option f n true = Ok o -> o_required o = true ->
+  (v = Some [] \/ (v = None /\ no_value_next t = true)) ->
+  add_long_option f st n v t = Err CannotParse.
+Proof.
+  intros Hh Hg Hr Hv. rewrite add_long_eq, Hh, Hg. cbn [negb bind].
+  destruct Hv as [->|[-> Hn]].
+  - destruct (negb (o_accepts o)); [reflexivity|]. cbn [look fst snd]. unfold store. rewrite Hr. reflexivity.
+  - unfold look. destruct (o_accepts o); [|cbn [fst snd]; unfold store; rewrite Hr; reflexivity].
+    destruct t as [|nxt r]; [cbn [fst snd]; unfold store; rewrite Hr; reflexivity|].
+    cbn [no_value_next] in Hn.
+    destruct (nonempty nxt); cbn [negb orb andb] in *.
+    + rewrite Hn. cbn [negb fst snd]. unfold store. rewrite Hr. reflexivity.
+    + cbn [fst snd]. unfold store. rewrite Hr. reflexivity.
+Qed.
+
+Lemma take_value_no_value rest : no_value_next rest = true ->
+  (fst (take_value rest) = Some ([] : str) \/ (fst (take_value rest) = None /\ no_value_next (snd (take_value rest)) = true)).
+Proof.
+  destruct rest as [|nxt r]; cbn [take_value no_value_next fst snd]; [auto|]. intros Hn.
+  destruct (nonempty nxt) eqn:E; cbn [negb orb andb] in *.
+  - rewrite Hn. cbn [fst snd no_value_next]. rewrite E, Hn. auto.
+  - left. destruct nxt; [reflexivity|discriminate].
+Qed.
+
+(* "--name" with nothing usable behind it, and "--name=" *)
+Lemma step_value_missing_long f len st name rest o :
+  name <> [] -> no_eq name = true -> has_option f name true = true -> get_option f name true = Ok o ->
+  o_required o = true -> no_value_next rest = true ->
+  step f len true st (long_tok name) rest = Err CannotParse.
+Proof.
+  intros Hne Hq Hh Hg Hr Hn. rewrite long_tok_dispatch by exact Hne.
+  unfold parse_long_option, long_tok. cbn [skipn]. rewrite (split_eq_none name [] Hq).
+  destruct (accepts f name).
+  - pose proof (take_value_no_value rest Hn) as Hv. destruct (take_value rest) as [v t']. cbn [fst snd] in Hv.
+    rewrite (add_long_missing f st name o v t' Hh Hg Hr Hv). reflexivity.
+  - rewrite (add_long_missing f st name o None rest Hh Hg Hr); [reflexivity|auto].
+Qed.
+Lemma step_value_missing_eq f len st name rest o :
+  no_eq name = true -> has_option f name true = true -> get_option f name true = Ok o -> o_required o = true ->
+  step f len true st (long_tok (name ++ [EQ])) rest = Err CannotParse.
+Proof.
+  intros Hq Hh Hg Hr. rewrite long_tok_dispatch by (destruct name; discriminate).
+  unfold parse_long_option, long_tok. cbn [skipn]. rewrite (split_eq_found name [] [] Hq). cbn [rev app].
+  match goal with |- context [add_long_option ?a ?b ?c ?d ?e] =>
+    assert (add_long_option a b c d e = Err CannotParse) as HH by (eapply add_long_missing; eauto) end.
+  rewrite HH. reflexivity.
+Qed.
+
+Theorem option_value_missing_at f f' ar cns toks st name rest o :
+  aug_format f = Ok (f', ar, cns) ->
+  reach f' false true ps_empty toks true st (long_tok name :: rest) ->
+  name <> [] -> no_eq name = true -> has_option f' name true = true -> get_option f' name true = Ok o ->
+  o_required o = true -> no_value_next rest = true ->
+  parse f false toks = Err CannotParse.
+Proof. intros Ha Hr Hne Hq Hh Hg Hreq Hn. eapply strict_error_at; eauto. eapply step_value_missing_long; eauto. Qed.
+
+Theorem option_value_missing f f' ar cns pre st name rest o :
+  aug_format f = Ok (f', ar, cns) -> scans f' pre st -> existsb is_dd pre = false ->
+  name <> [] -> no_eq name = true -> has_option f' name true = true -> get_option f' name true = Ok o ->
+  o_required o = true -> no_value_next rest = true ->
+  parse f false (pre ++ long_tok name :: rest) = Err CannotParse.
+Proof.
+  intros Ha Hs Hdd Hne Hq Hh Hg Hreq Hn.
+  apply (option_value_missing_at f f' ar cns _ st name rest o Ha); try assumption.
+  apply scans_reach; auto.
+Qed.
+Theorem option_value_empty f f' ar cns pre st name rest o :
+  aug_format f = Ok (f', ar, cns) -> scans f' pre st -> existsb is_dd pre = false ->
+  no_eq name = true -> has_option f' name true = true -> get_option f' name true = Ok o -> o_required o = true ->
+  parse f false (pre ++ long_tok (name ++ [EQ]) :: rest) = Err CannotParse.
+Proof.
+  intros Ha Hs Hdd Hq Hh Hg Hreq.
+  apply (strict_error_at f f' ar cns _ true st (long_tok (name ++ [EQ])) rest CannotParse Ha).
+  - apply scans_reach; auto.
+  - eapply step_value_missing_eq; eauto.
+Qed.
+
+(* short form: "-n", also as the last letter of a group of flags "-abn" *)
+Lemma short_set_missing f c o : has_option f [c] true = true -> get_option f [c] true = Ok o ->
+  has_option f (o_long o) true = true -> get_option f (o_long o) true = Ok o -> o_required o = true ->
+  forall flags st t, forallb (flag_ok f) flags = true -> no_value_next t = true ->
+  fst (short_set f st (flags ++ [c]) t) = Err CannotParse.
+Proof.
+  intros Hh Hg Hhl Hgl Hr. induction flags as [|x fl IH]; intros st t Hf Hn; cbn [app short_set].
+  - rewrite Hh, Hg. cbn [negb].
+    rewrite (add_long_missing f st (o_long o) o None t Hhl Hgl Hr) by auto.
+    destruct (o_accepts o); reflexivity.
+  - cbn [forallb] in Hf. apply andb_prop in Hf as [Hx Hfl].
+    destruct (flag_ok_inv _ _ Hx) as (o1 & o' & H1 & H2 & H3 & H4 & H5 & H6 & H7 & H8).
+    rewrite H1, H2, H3. cbn [negb]. rewrite add_long_eq, H4, H5. cbn [negb bind].
+    rewrite H6. cbn [look fst snd]. unfold store. rewrite H7, H8. apply IH; assumption.
+Qed.
+
+Lemma step_value_missing_short f len st flags c rest o :
+  starts_dash (flags ++ [c]) = false -> forallb (flag_ok f) flags = true ->
+  has_option f [c] true = true -> get_option f [c] true = Ok o ->
+  has_option f (o_long o) true = true -> get_option f (o_long o) true = Ok o -> o_required o = true ->
+  no_value_next rest = true ->
+  step f len true st (short_tok (flags ++ [c])) rest = Err CannotParse.
+Proof.
+  intros Hd Hf Hh Hg Hhl Hgl Hr Hn. rewrite short_tok_dispatch; [|destruct flags; discriminate|exact Hd].
+  unfold parse_short_option, short_tok. cbn [skipn].
+  destruct flags as [|x fl]; cbn [app].
+  - destruct (accepts f [c]).
+    + pose proof (take_value_no_value rest Hn) as Hv. destruct (take_value rest) as [v t']. cbn [fst snd] in Hv.
+      unfold add_short_option. rewrite Hh, Hg. cbn [negb bind].
+      rewrite (add_long_missing f st (o_long o) o v t' Hhl Hgl Hr Hv). reflexivity.
+    + unfold add_short_option. rewrite Hh, Hg. cbn [negb bind].
+      rewrite (add_long_missing f st (o_long o) o None rest Hhl Hgl Hr) by auto. reflexivity.
+  - cbn [forallb] in Hf. pose proof Hf as Hf0. apply andb_prop in Hf as [Hx Hfl].
+    destruct (flag_ok_inv _ _ Hx) as (o1 & o' & H1 & H2 & H3 & _).
+    assert (accepts f [x] = false) as Ha by (unfold accepts; rewrite H1, H2, H3; reflexivity).
+    destruct (fl ++ [c]) as [|y l] eqn:E; [destruct fl; discriminate|].
+    rewrite Ha. rewrite <- E. change (x :: fl ++ [c]) with ((x :: fl) ++ [c]).
+    rewrite (short_set_missing f c o Hh Hg Hhl Hgl Hr (x :: fl) st rest Hf0 Hn). reflexivity.
+Qed.
+
+Theorem short_option_value_missing_at f f' ar cns toks st flags c rest o :
+  aug_format f = Ok (f', ar, cns) ->
+  reach f' false true ps_empty toks true st (short_tok (flags ++ [c]) :: rest) ->
+  starts_dash (flags ++ [c]) = false -> forallb (flag_ok f') flags = true ->
+  has_option f' [c] true = true -> get_option f' [c] true = Ok o ->
+  has_option f' (o_long o) true = true -> get_option f' (o_long o) true = Ok o -> o_required o = true ->
+  no_value_next rest = true ->
+  parse f false toks = Err CannotParse.
+Proof.
+  intros Ha Hr Hd Hf Hh Hg Hhl Hgl Hreq Hn. eapply strict_error_at; eauto.
+  eapply step_value_missing_short; eauto.
+Qed.
+Theorem short_option_value_missing f f' ar cns pre st flags c rest o :
+  aug_format f = Ok (f', ar, cns) -> scans f' pre st -> existsb is_dd pre = false ->
+  starts_dash (flags ++ [c]) = false -> forallb (flag_ok f') flags = true ->
+  has_option f' [c] true = true -> get_option f' [c] true = Ok o ->
+  has_option f' (o_long o) true = true -> get_option f' (o_long o) true = Ok o -> o_required o = true ->
+  no_value_next rest = true ->
+  parse f false (pre ++ short_tok (flags ++ [c]) :: rest) = Err CannotParse.
+Proof.
+  intros Ha Hs Hdd Hd Hf Hh Hg Hhl Hgl Hreq Hn.
+  apply (short_option_value_missing_at f f' ar cns _ st flags c rest o Ha); try assumption.
+  apply scans_reach; auto.
+Qed.
+
+Open Scope string_scope.
+Example ex_flag_given_value : parse ex_f false (T ["srv"; "add"; "x"; "--verbose=1"; "--nope"]) = Err CannotParse.
+Proof.
+  apply (flag_given_value ex_f ex_f' ex_far ex_fcn (T ["srv"; "add"; "x"]) (scan_st ex_f' (T ["srv"; "add"; "x"]))
+           (S_ "verbose") (S_ "1") (T ["--nope"]) (mkopt "verbose" (Some "v") 4 VNone) ex_f_aug); vm_compute; reflexivity.
+Qed.
+Example ex_option_value_missing : parse ex_f false (T ["x"; "--num"; "--verbose"]) = Err CannotParse.
+Proof.
+  apply (option_value_missing ex_f ex_f' ex_far ex_fcn (T ["x"]) (scan_st ex_f' (T ["x"]))
+           (S_ "num") (T ["--verbose"]) (mkopt "num" (Some "n") 520 VNone) ex_f_aug); vm_compute; try reflexivity; discriminate.
+Qed.
+Example ex_option_value_missing_last : parse ex_f false (T ["x"; "--num"]) = Err CannotParse.
+Proof.
+  apply (option_value_missing ex_f ex_f' ex_far ex_fcn (T ["x"]) (scan_st ex_f' (T ["x"]))
+           (S_ "num") [] (mkopt "num" (Some "n") 520 VNone) ex_f_aug); vm_compute; try reflexivity; discriminate.
+Qed.
+Example ex_option_value_empty : parse ex_f false (T ["x"; "--num="; "3"]) = Err CannotParse.
+Proof.
+  apply (option_value_empty ex_f ex_f' ex_far ex_fcn (T ["x"]) (scan_st ex_f' (T ["x"]))
+           (S_ "num") (T ["3"]) (mkopt "num" (Some "n") 520 VNone) ex_f_aug); vm_compute; reflexivity.
+Qed.
+Example ex_short_option_value_missing : parse ex_f false (T ["x"; "-vqn"; ""; "7"]) = Err CannotParse.
+Proof.
+  apply (short_option_value_missing ex_f ex_f' ex_far ex_fcn (T ["x"]) (scan_st ex_f' (T ["x"]))
+           (S_ "vq") 110%N (T [""; "7"]) (mkopt "num" (Some "n") 520 VNone) ex_f_aug); vm_compute; reflexivity.
+Qed.
+Close Scope string_scope.
